@@ -22,6 +22,10 @@ Section VtreeInd.
   Hypothesis HImage : forall id ph pw, P (VImage id ph pw).
   Hypothesis HGlyph : forall id gh gw fb, P (VGlyph id gh gw fb).
   Hypothesis HProbe : forall id ph pw, P (VProbe id ph pw).
+  Hypothesis HSurface : forall sfh sfw cl, P (VSurface sfh sfw cl).
+  Hypothesis HAscii : forall ih iw color, P (VImageAscii ih iw color).
+  Hypothesis HRefNone : P (VRef None).
+  Hypothesis HRefSome : forall v', P v' -> P (VRef (Some v')).
 
   Fixpoint vtree_rect (v : vtree) : P v :=
     match v with
@@ -49,6 +53,10 @@ Section VtreeInd.
     | VImage id ph pw => HImage id ph pw
     | VGlyph id gh gw fb => HGlyph id gh gw fb
     | VProbe id ph pw => HProbe id ph pw
+    | VSurface sfh sfw cl => HSurface sfh sfw cl
+    | VImageAscii ih iw color => HAscii ih iw color
+    | VRef None => HRefNone
+    | VRef (Some v0) => HRefSome v0 (vtree_rect v0)
     end.
 End VtreeInd.
 
@@ -324,13 +332,17 @@ Proof.
     + destruct (leaf_clamped_ok c (N.of_nat gh) (N.of_nat gw) Hv) as (t & -> & _). eauto.
     + destruct (text_layout_ok vc (str_cells fb) true c Hv) as (t & -> & _). eauto.
   - destruct (leaf_clamped_ok c ph pw Hv) as (t & -> & _). eauto.
+  - destruct (leaf_clamped_ok c sfh sfw Hv) as (t & -> & _). eauto.
+  - destruct (leaf_clamped_ok c (ih / 2 + ih mod 2) iw Hv) as (t & -> & _). eauto.
+  - eauto.
+  - destruct (IHv c Hv) as (t & ->). cbn. eauto.
 Qed.
 
 (* the kinds whose reported size the property claims to lie within the constraint *)
 Definition claimed_kind (v : vtree) : bool :=
   match v with
   | VText _ _ | VStr _ | VFlex _ _ _ | VContainer _ _ _ _ _ _ _ | VFill _ | VUnit | VImage _ _ _ | VGlyph _ _ _ _
-  | VProbe _ _ _ => true
+  | VProbe _ _ _ | VSurface _ _ _ | VImageAscii _ _ _ => true
   | _ => false
   end.
 
@@ -367,5 +379,7 @@ Proof.
   - destruct (image_cells vc ph pw) as [h w]. apply leaf_clamped_within.
   - destruct (has_glyphs (v_r vc)); [apply leaf_clamped_within|].
     intros E. destruct (text_layout_ok vc (str_cells fb) true c Hv) as (t' & E' & W). congruence.
+  - apply leaf_clamped_within.
+  - apply leaf_clamped_within.
   - apply leaf_clamped_within.
 Qed.
